@@ -291,6 +291,8 @@ CheckCb(tk, e, tk2) ==
        V(IF cont THEN TRUE ELSE (tk.dpos = 0 \/ tk.dpos = Len(DeclOrder(tk.dm, tk.ds))) /\ DStart(e),
          "C15", "injections and the state's own callback are not delivered in the declared order, exactly once each")
     \cup V0(e.self = 1, "C14", "the object whose callback runs is not the one access<T>() returns")
+    \cup V0(e.s # NONE /\ (IsPhase(e.m) \/ e.m \in {M_ENTER, M_REENTER, M_EXIT, M_EXIT_GUARD}) => e.mact = e.s,
+            "C14", "a callback ran on a state other than the one activeStateId() names: the dispatch reached the wrong state")
     \cup V0(e.sid = e.s, "C14", "control.stateId() inside a callback is not the id of the state the callback belongs to")
     \cup V0(e.sid = e.s, "C06", "control.stateId() is not the callback's own state id")
     \cup V0(e.cact = e.mia, "C06", "control.isActive(id) disagrees with the machine's own isActive(id)")
@@ -310,6 +312,9 @@ CheckCb(tk, e, tk2) ==
     \cup V(FullObs /\ (proc \/ actv) /\ start /\ IsLife(e.m) /\ IsGuard(tk.dm) /\ tk.dpos > 0 /\ tk.lastreq # NoT
              => IF e.req[1] = tk.lastreq[1] /\ e.req[2] = tk.lastreq[2] THEN tk.rounds >= (IF proc THEN L ELSE L + 1) ELSE IsDup(survNow, tk.lastreq),
            "C02", "the most recent request, which no guard cancelled, was dropped: an earlier request is being applied")
+    \cup V(HasHist /\ FullObs /\ (proc \/ actv) /\ start /\ IsLife(e.m) /\ IsGuard(tk.dm) /\ tk.dpos > 0 /\ tk.lastreq # NoT
+             => IF e.req[1] = tk.lastreq[1] /\ e.req[2] = tk.lastreq[2] THEN tk.rounds >= (IF proc THEN L ELSE L + 1) ELSE IsDup(survNow, tk.lastreq),
+           "C11", "the transition being applied (and recorded in the history) is not the surviving request: the latest one was dropped unevaluated")
     \cup V(FullObs /\ (proc \/ actv) /\ start /\ IsLife(e.m) /\ IsGuard(tk.dm) /\ tk.dpos > 0 /\ tk.lastreq # NoT /\ ~IsDup(survNow, tk.lastreq)
              /\ ~(e.req[1] = tk.lastreq[1] /\ e.req[2] = tk.lastreq[2]) /\ e.cur[1] = tk.lastreq[1] /\ e.cur[2] = tk.lastreq[2]
              => e.cur[3] = tk.lastreq[3],
